@@ -11,6 +11,8 @@ ASSUME12 = [
     "grammar's reference encoder/parser agree over a bounded space; input breadth is enumerated / drawn by the Python driver",
     "round trip is demanded for keys from the config-name alphabet [A-Za-z0-9_]; for other keys only 'one line or an error'",
     "values are compared after str() (the API's documented conversion); non-ASCII values are outside the quantifier",
+    "every third vector is issued while another command is in flight and an earlier set_conf waits in the queue: the call's own "
+    "command line (written once its turn comes) is what is decided, and the earlier call's line must be untouched",
 ]
 ASSUME13 = [
     "TLC checks both that the wire lines the harness fed are Tor's rendering of the abstract key/value set (WireOK) and that the "
@@ -19,6 +21,8 @@ ASSUME13 = [
     "data lines that begin with the requested key itself followed by '=' are not generated (indistinguishable in-band)",
     "half of the vectors have an unsolicited 650 event (single-line, multi-line or data-block) delivered just before the command is "
     "issued or just before its reply; the expected result does not depend on it",
+    "some vectors are issued behind an in-flight command whose caller has cancelled its Deferred: Tor still answers that command "
+    "first, and the answer must not be taken for the vector's",
 ]
 CRIT12 = ["a", " ", "\t", '"', "\\", "=", "\r", "\n"]
 CRIT13 = ["a", "=", " ", '"', "'", "2", "5", "0", ".", "O", "K"]
@@ -102,13 +106,13 @@ def run(pid, tier, seed):
         rep.assumptions = list(ASSUME12)
         rep.tlc("KvLine_MC (reference encoder/parser round trip)",
                 tlc.run_tlc("KvLine_MC", "KvLine_MC_%s.cfg" % tier, workers=16, timeout=900))
-        recs = [kv.setconf_vector(a, k) for a, k in vectors12(tier, seed)]
+        recs = [kv.setconf_vector(a, k, "queued" if i % 3 == 2 else "idle") for i, (a, k) in enumerate(vectors12(tier, seed))]
         key = lambda r: json.dumps(r["args"])
     else:
         rep.assumptions = list(ASSUME13)
         rep.tlc("KvLine_MC (grammar round trip)", tlc.run_tlc("KvLine_MC", "KvLine_MC_quick.cfg", workers=16, timeout=900))
         recs = []
-        noises = ["none"] * 6 + ["%s@%s" % (sh, at) for sh in ("midline", "block", "single") for at in ("before", "during")]
+        noises = ["none"] * 6 + ["%s@%s" % (sh, at) for sh in ("midline", "block", "single") for at in ("before", "during")] + ["cancel@before"] * 2
         for v in vectors13(tier, seed):
             noise = rng.choice(noises)
             if v[0] == "info":
@@ -123,7 +127,7 @@ def run(pid, tier, seed):
                        "(exhaustive short strings over {a,=,SP,\",',2,5,0,.,O,K} and random printable text), two keys, data blocks of 1-3 "
                        "lines incl. dot-stuffed / status look-alike / k=v lines, GETCONF unset / empty / 1..3 values; under whole, "
                        "byte-at-a-time and random segmentation; distinct by input")
-    traces = [dict((k, v) for k, v in r.items() if k not in ("args", "seg", "noise")) for r in recs]
+    traces = [dict((k, v) for k, v in r.items() if k not in ("args", "seg", "noise", "ctx")) for r in recs]
     for t in traces:
         t["steps"] = [1]
     res, runs = tlc.validate_parallel("KvLineTrace", "KvLineTrace.cfg", traces, nproc=14, chunk=1500, timeout=3000)
@@ -174,14 +178,14 @@ def replay(pid, path):
     v = p["vector"]
     if v["p"] == "C12":
         import ast
-        rec = kv.setconf_vector([ast.literal_eval(a) for a in v["args"]], v["keysok"])
+        rec = kv.setconf_vector([ast.literal_eval(a) for a in v["args"]], v["keysok"], v.get("ctx", "idle"))
     elif v["cmd"] == "GETINFO":
         rec = kv.getinfo_vector([(txt(k["key"]), k["block"], [txt(l) for l in k["lines"]]) for k in v["kvs"]], v.get("seg", "whole"), random.Random(0),
                                 v.get("noise", "none"))
     else:
         rec = kv.getconf_vector(txt(v["key"]), v["unset"], [txt(x) for x in v["vals"]], v.get("seg", "whole"), random.Random(0),
                                 v.get("noise", "none"))
-    t = dict((k, x) for k, x in rec.items() if k not in ("args", "seg", "noise"))
+    t = dict((k, x) for k, x in rec.items() if k not in ("args", "seg", "noise", "ctx"))
     t["steps"] = [1]
     res, r = tlc.validate_traces("KvLineTrace", "KvLineTrace.cfg", [t])
     x = res[0]
